@@ -12,3 +12,4 @@ pub mod stubs;
 pub mod c12_guard;
 pub mod c10_codecs;
 pub mod c04_formulas;
+pub mod c20_eval;
